@@ -23,22 +23,41 @@ def _stubs():
 
 
 def _bus_watch_timeout_ms(tridonic):
-    """the literal second argument of asyncio.wait_for(...) inside _bus_watch"""
-    src = textwrap.dedent(inspect.getsource(tridonic._bus_watch))
-    vals = []
-    for node in ast.walk(ast.parse(src)):
-        if isinstance(node, ast.Call) and isinstance(node.func, ast.Attribute) \
-                and node.func.attr == "wait_for":
-            arg = None
-            if len(node.args) >= 2:
-                arg = node.args[1]
-            for kw in node.keywords:
-                if kw.arg == "timeout":
-                    arg = kw.value
-            if isinstance(arg, ast.Constant) and isinstance(arg.value, (int, float)):
-                vals.append(arg.value)
+    """the time-out the bus watcher applies while a command is pending: the second argument of the
+    `asyncio.wait_for(...)` in the watcher — a literal, or a name that resolves to a class / module constant —
+    looked for in `_bus_watch` first and then in every method of the class whose name mentions the bus watch"""
+    import dali.driver.hid as hidmod
+
+    def timeouts_in(func):
+        try:
+            src = textwrap.dedent(inspect.getsource(func))
+        except (OSError, TypeError):
+            return []
+        vals = []
+        for node in ast.walk(ast.parse(src)):
+            if isinstance(node, ast.Call) and isinstance(node.func, ast.Attribute) and node.func.attr == "wait_for":
+                arg = node.args[1] if len(node.args) >= 2 else None
+                for kw in node.keywords:
+                    if kw.arg == "timeout":
+                        arg = kw.value
+                v = None
+                if isinstance(arg, ast.Constant) and isinstance(arg.value, (int, float)):
+                    v = arg.value
+                elif isinstance(arg, ast.Attribute):         # self.X / tridonic.X / cls.X
+                    v = getattr(tridonic, arg.attr, None)
+                elif isinstance(arg, ast.Name):              # module-level constant
+                    v = getattr(hidmod, arg.id, None)
+                if isinstance(v, (int, float)) and not isinstance(v, bool):
+                    vals.append(v)
+        return vals
+    vals = timeouts_in(getattr(tridonic, "_bus_watch", None)) if hasattr(tridonic, "_bus_watch") else []
+    if not vals:
+        for name, f in vars(tridonic).items():
+            if "watch" in name.lower() and callable(getattr(f, "__func__", f)):
+                vals += timeouts_in(getattr(f, "__func__", f))
+    vals = sorted(set(vals))
     if len(vals) != 1:
-        raise RuntimeError("cannot find the single bus-watch time-out literal: %r" % vals)
+        raise RuntimeError("cannot find the single bus-watch time-out: %r" % vals)
     return int(round(vals[0] * 1000))
 
 
